@@ -65,9 +65,14 @@ class SlotInfo:
         ceiling of 1/ratio of the original, and ramps only when at least one frame per call is produced"""
         if self.kind not in ("fastin", "sincin"):
             return True
-        c0 = math.ceil(1.0 / self.orig)
+        def ceil_inv(x):
+            try:
+                return math.ceil(1.0 / x)
+            except (OverflowError, ZeroDivisionError, ValueError):
+                return None          # subnormal / zero ratio: 1/ratio is not a finite number
+        c0 = ceil_inv(self.orig)
         for r, ramp in self.ratios:
-            if math.ceil(1.0 / r) != c0:
+            if ceil_inv(r) != c0 or c0 is None:
                 return False
             if ramp and self.chunk * min(r, self.orig) < 1.0:
                 return False
